@@ -7,6 +7,7 @@ import (
 	"errors"
 	"fmt"
 	"sync"
+	"time"
 
 	"github.com/libp2p/go-libp2p/core/peer"
 
@@ -128,7 +129,11 @@ func (s *Sys) Create(r Role, tid uint64, v datatransfer.TypedVoucher) (datatrans
 
 // Get reads the state (flushes queued events first).
 func (s *Sys) Get(chid datatransfer.ChannelID) (datatransfer.ChannelState, error) {
-	return s.Ch.GetByID(context.Background(), chid)
+	// bounded in virtual time: a query that is never answered (e.g. the channel's state machine died) comes back
+	// with an error instead of ending the bubble in a deadlock panic
+	ctx, cancel := context.WithTimeout(context.Background(), time.Hour)
+	defer cancel()
+	return s.Ch.GetByID(ctx, chid)
 }
 
 // Vec reads the accessor vector.
